@@ -171,6 +171,34 @@ def parseTest (rec : Nat → P Expr) (e : Expr) : P Expr := do
 
 /-! ### subscripts and identifier chains -/
 
+/-- first part of `parse_subscript`: "If we don't have a colon (eg `::-1`), parse an expr first" -/
+def subscriptStart (rec : Nat → P Expr) : P (Option Expr) := do
+  if !(← headIs .colon) then do
+    let x ← rec 0
+    pure (some x)
+  else pure none
+
+/-- second part of `parse_subscript`: "Now, it could be slice indexing pattern if there is a `:`";
+returns (`slice`, `end`, `step`) -/
+def subscriptSlice (rec : Nat → P Expr) : P (Bool × Option Expr × Option Expr) := do
+  if (← headIs .colon) then do
+    expect .colon
+    -- If the next character is not `:` or `]`, parse the expr
+    let stop ← (do
+      if !(← headIs .colon) && !(← headIs .rightBracket) then do
+        let x ← rec 0
+        pure (some x)
+      else pure none : P (Option Expr))
+    -- Then check if there is a step value. If there is a `:`, there _must_ be a value
+    let step ← (do
+      if (← headIs .colon) then do
+        expect .colon
+        let x ← rec 0
+        pure (some x)
+      else pure none : P (Option Expr))
+    pure (true, stop, step)
+  else pure (false, none, none)
+
 /-- `parse_subscript` -/
 def parseSubscript (C : Cfg) (rec : Nat → P Expr) (e : Expr) : P Expr := do
   let isOptional ← headIs .questionMarkLeftBracket
@@ -178,28 +206,8 @@ def parseSubscript (C : Cfg) (rec : Nat → P Expr) (e : Expr) : P Expr := do
   let brackets ← (fun s => .ok (s.brackets + 1) { s with brackets := s.brackets + 1 } : P Nat)
   if brackets > C.maxBrackets then P.err
   else do
-    -- If we don't have a colon (eg `::-1`), parse an expr first
-    let start ← (do
-      if !(← headIs .colon) then do
-        let x ← rec 0
-        pure (some x)
-      else pure none : P (Option Expr))
-    let (slice, stop, step) ← (do
-      if (← headIs .colon) then do
-        expect .colon
-        let stop ← (do
-          if !(← headIs .colon) && !(← headIs .rightBracket) then do
-            let x ← rec 0
-            pure (some x)
-          else pure none : P (Option Expr))
-        let step ← (do
-          if (← headIs .colon) then do
-            expect .colon
-            let x ← rec 0
-            pure (some x)
-          else pure none : P (Option Expr))
-        pure (true, stop, step)
-      else pure (false, none, none) : P (Bool × Option Expr × Option Expr))
+    let start ← subscriptStart rec
+    let (slice, stop, step) ← subscriptSlice rec
     expect .rightBracket
     let out ← (if slice then pure (.slice e start stop step isOptional)
       else match start with
